@@ -29,16 +29,19 @@ THEOREMS = [
     "c16_entry_cancel_no_orphan",
     "c16_entry_gap_orphans",
     "c16_returned_value_was_written_by_child", "c16_dead_child_never_answers",
+    "c16_eof_is_not_exit", "c16_reuse_sound", "c16_exit_once_leaks_on_reuse",
 ]
 RULE = (
     "real children {well-behaved, exits at step k (k=0..4), ignores SIGTERM after signalling readiness, never reads stdin, "
-    "stops reading after its first answer, floods stdout (valid / junk lines), closes stdout, closes stdin, slow start} x "
+    "stops reading after its first answer, floods stdout (valid / junk lines), closes stdout (at once / after its first answer) and then exits on stdin EOF / "
+    "keeps reading / never looks at stdin again / ignores SIGTERM too, closes stdin, slow start} x "
     "exit path {normal, exception in body, outer cancellation, timeout around the context} x moment {before first message, "
     "request in flight, after response(s)} x API {stdio_client, StdioTransport, StdioClient}; the same with a BACKLOG of 40 "
     "queued outgoing 16 kB messages (10x pipe + write buffer) at the moment of the exit for the children that do not read; "
-    "cancellation / timeout WHILE THE CONTEXT IS BEING ENTERED: the deadline of a scope around the whole async-with scanned "
+    "REUSE: 2 (3) sequential sessions on ONE StdioClient / StdioTransport object (and consecutive stdio_client contexts), "
+    "observed after each session; cancellation / timeout WHILE THE CONTEXT IS BEING ENTERED: the deadline of a scope around the whole async-with scanned "
     "0..160 ms in 8 ms steps (thorough 0..200 ms in 2 ms steps) for a slow-starting and a normal child, both cancelled paths; "
-    "quick: 23 directed scenarios + 4 seeded ones + 42 entry deadlines + 3 unstartable commands; thorough: the full "
+    "quick: 33 directed scenarios + 4 seeded ones + 42 entry deadlines + 3 unstartable commands; thorough: the full "
     "products; observed: /proc state of the child after the exit, wall-clock exit duration against 2 s + 3 s slack (an exit "
     "still running 5.5 s after it began is released by killing the child and reported), /proc/self/fd count before/after, "
     "outcome of every awaited request; non-trivial = a scenario in which the context was entered or its entry was cut"
@@ -65,6 +68,27 @@ def _case(b, p, m, **kw):
     return c
 
 
+# closes its stdout (the client sees EOF) and ... exits on stdin EOF / keeps reading, ignoring EOF / never looks at
+# stdin again (dies on SIGTERM) / ignores SIGTERM too; at once, or after its first answer
+CLOSE_STDOUT = [{}, {"linger": "reads"}, {"linger": "sleep"}, {"linger": "stubborn"},
+                {"linger": "reads", "close_after": 1}, {"linger": "sleep", "close_after": 1},
+                {"linger": "stubborn", "close_after": 1}]
+
+
+def reuse_product(apis=("StdioClient", "StdioTransport", "stdio_client"), sessions=(2,)):
+    """k sequential sessions on ONE client object (StdioClient, StdioTransport; for the stdio_client function:
+    k fresh contexts in a row): after EACH session no child and no additional descriptor"""
+    out = []
+    for api in apis:
+        for k in sessions:
+            for b, v in (("well", {}), ("ignore_term", {}), ("never_reads", {}), ("exit_at", {"k": 1}), ("flood", {}),
+                         ("close_stdout", {"linger": "sleep"})):
+                for p in H.PATHS:
+                    for m in H.MOMENTS:
+                        out.append(_case(b, p, m, api=api, sessions=k, **v))
+    return out
+
+
 def product(apis, nreq=2, junk=True):
     out = []
     for api in apis:
@@ -72,6 +96,8 @@ def product(apis, nreq=2, junk=True):
             variants = [{"k": k} for k in range(0, 2 * nreq + 1)] if b == "exit_at" else [{}]
             if b == "flood" and junk:
                 variants = [{}, {"junk": True}]
+            if b == "close_stdout":
+                variants = CLOSE_STDOUT
             for v in variants:
                 for p in H.PATHS:
                     for m in H.MOMENTS:
@@ -104,6 +130,18 @@ DIRECTED = [
     _case("flood", "exception", "before", backlog=BACKLOG),
     _case("well", "normal", "after", backlog=BACKLOG),
     _case("never_reads", "cancel", "before", backlog=BACKLOG),
+    # closes its stdout and lingers
+    _case("close_stdout", "normal", "before", linger="sleep"),
+    _case("close_stdout", "exception", "inflight", linger="reads"),
+    _case("close_stdout", "cancel", "after", linger="stubborn", close_after=1),
+    _case("close_stdout", "timeout", "after", linger="sleep", close_after=1),
+    # the same client object for several sessions
+    _case("well", "normal", "after", api="StdioClient", sessions=3),
+    _case("well", "cancel", "before", api="StdioClient", sessions=2),
+    _case("ignore_term", "exception", "inflight", api="StdioClient", sessions=2),
+    _case("exit_at", "timeout", "after", k=1, api="StdioClient", sessions=2),
+    _case("never_reads", "timeout", "inflight", api="StdioTransport", sessions=2),
+    _case("well", "normal", "before", api="stdio_client", sessions=2),
 ]
 BAD = [{"bad": b, "api": a} for b in ("missing", "not-executable", "directory", "bare-name") for a in H.APIS]
 
@@ -139,14 +177,16 @@ class Scenarios(Suite):
     def cases(self, ctx, budget):
         rng = ctx.sub_rng("c16", budget)
         if budget == "quick":
-            full = product(H.APIS) + backlog_product()
+            full = product(H.APIS) + backlog_product() + reuse_product()
             out = [dict(c) for c in DIRECTED] + [dict(c) for c in rng.sample(full, 4)]
             out += entry_scan(8, 160)
             out += [BAD[0], BAD[4], BAD[8]]
         elif budget == "thorough":
-            out = product(H.APIS) + backlog_product(H.APIS) + entry_scan(2, 200) + entry_scan(8, 160, H.APIS[1:]) + BAD
+            out = (product(H.APIS) + backlog_product(H.APIS) + reuse_product() + reuse_product(("StdioClient",), (3,))
+                   + entry_scan(2, 200) + entry_scan(8, 160, H.APIS[1:]) + BAD)
         else:  # search
-            out = product(["stdio_client"], nreq=1, junk=False) + backlog_product() + entry_scan(4, 160) + BAD[:4]
+            out = (product(["stdio_client"], nreq=1, junk=False) + backlog_product() + reuse_product(("StdioClient", "StdioTransport"))
+                   + entry_scan(4, 160) + BAD[:4])
         for i, c in enumerate(out):
             if "bad" not in c:
                 c["nonce"] = f"{budget[0]}{i}"
@@ -161,8 +201,9 @@ class Scenarios(Suite):
             return {"m": "shutdown", "bad": True}
         d = {"m": "shutdown", "behaviour": case["behaviour"], "path": case["path"], "moment": case["moment"],
              "nreq": case.get("nreq", 1), "backlog": case.get("backlog", 0) * H.BACKLOG_BYTES}
-        if "k" in case:
-            d["k"] = case["k"]
+        for key in ("k", "linger", "close_after", "sessions"):
+            if key in case:
+                d[key] = case[key]
         return d
 
     def model_obs(self, out, case):
@@ -195,7 +236,14 @@ class Scenarios(Suite):
                         f"({case['bad']}, {case.get('api')}) did not raise", {"raised_on_enter": True})
             return None
         what = (f"{case['behaviour']}{'/k=%d' % case['k'] if 'k' in case else ''} x {case['path']} x {case['moment']}"
-                f"{' x %d queued messages of %d bytes' % (case['backlog'], H.BACKLOG_BYTES) if case.get('backlog') else ''} ({case.get('api')})")
+                f"{' x %d queued messages of %d bytes' % (case['backlog'], H.BACKLOG_BYTES) if case.get('backlog') else ''}"
+                f"{' (stdout closed%s, then: %s)' % (' after %d answer(s)' % case['close_after'] if case.get('close_after') else '', case.get('linger', 'eof')) if case['behaviour'] == 'close_stdout' else ''}"
+                f" ({case.get('api')})")
+        reuse = ""
+        if case.get("sessions", 1) > 1:
+            what += f", session {o.get('session')} of {case['sessions']} on the same {case.get('api')} object"
+            if (o.get("session") or 1) > 1:
+                reuse = "/reuse"
         if case["moment"] == "entry":
             what = f"{case['behaviour']} x {case['path']} {case['deadline_ms']} ms after reaching the context ({case.get('api')})"
             where = "entry" if not o["entered"] else "early-body"
@@ -213,23 +261,24 @@ class Scenarios(Suite):
         if not o["entered"]:
             return None  # cannot happen with a startable command; nothing the property says about it
         if o["hang"] or o["duration_ms"] is None or o["duration_ms"] > BOUND_MS:
-            return (f"unbounded/{case['path']}", f"{what}: leaving the context took "
+            return (f"unbounded/{case['path']}{reuse}", f"{what}: leaving the context took "
                     f"{'more than %d' % H.HANG_AFTER_MS if o['hang'] else o['duration_ms']} ms"
                     f"{' (it returned only after the harness killed the child)' if o['hang'] else ''} "
                     f"(bound {H.GRACE_MS} ms + {H.SLACK_MS} ms slack)", {"duration_ms": f"<= {BOUND_MS}"})
         if o["state"] == "running":
-            return (f"child-left-running/{case['path']}", f"{what}: the child process is still running after the "
+            return (f"child-left-running/{case['path']}{reuse}", f"{what}: the child process is still running after the "
                     f"context was left ({o['fd_delta']} descriptors still open)", {"state": "gone", "fd_delta": 0})
         if o["state"] == "zombie":
-            return (f"child-unreaped/{case['path']}", f"{what}: the child is a zombie after the context was left",
+            return (f"child-unreaped/{case['path']}{reuse}", f"{what}: the child is a zombie after the context was left",
                     {"state": "gone"})
         if o["fd_delta"] is not None and o["fd_delta"] > 0:
-            return (f"fd-leak/{case['behaviour']}", f"{what}: {o['fd_delta']} additional descriptor(s) open after the "
+            return (f"fd-leak/{case['behaviour']}{reuse}", f"{what}: {o['fd_delta']} additional descriptor(s) open after the "
                     f"context was left (child gone)", {"fd_delta": 0})
         for j, r in enumerate(o["requests"], 1):
             if r["outcome"] != "returned":
                 continue
-            if r.get("held") or not H.answers(case, j) or r.get("payload") != {"echo": r["x"]}:
+            nreq = case.get("nreq", 1) if case["moment"] == "after" else 1
+            if r.get("held") or not H.answers(case, (j - 1) % nreq + 1) or r.get("payload") != {"echo": r["x"]}:
                 return ("fabricated-result", f"{what}: request {j} returned {r.get('payload')!r}, which the child never wrote",
                         {"outcome": "timeout or error"})
         return None
@@ -240,7 +289,10 @@ class Scenarios(Suite):
         b = case["behaviour"] + ("%d" % case["k"] if "k" in case else "")
         if case["moment"] == "entry":
             return f"{b}/{case['path']}/entry-{'cut' if not o['entered'] else 'body'}/{case.get('api')}"
-        return f"{b}/{case['path']}/{case['moment']}{'+backlog' if case.get('backlog') else ''}/{case.get('api')}"
+        if case["behaviour"] == "close_stdout":
+            b += "-" + case.get("linger", "eof") + ("@%d" % case["close_after"] if case.get("close_after") else "")
+        return (f"{b}/{case['path']}/{case['moment']}{'+backlog' if case.get('backlog') else ''}/{case.get('api')}"
+                f"{'x%d' % case['sessions'] if case.get('sessions', 1) > 1 else ''}")
 
     def nontrivial(self, case, o):
         return "bad" not in case and (o["entered"] or case["moment"] == "entry")
@@ -256,10 +308,16 @@ class Scenarios(Suite):
             if case["behaviour"] != "well":
                 yield dict(case, behaviour="well")
             return
+        if case.get("sessions", 1) > 2:
+            yield dict(case, sessions=2)
+        if case.get("close_after"):
+            yield {k: v for k, v in case.items() if k != "close_after"}
+        if case.get("linger") in ("reads", "stubborn"):
+            yield dict(case, linger="sleep")
         if case.get("backlog"):
             yield {k: v for k, v in case.items() if k != "backlog"}
         if case["behaviour"] != "well":
-            c = {k: v for k, v in case.items() if k not in ("k", "junk")}
+            c = {k: v for k, v in case.items() if k not in ("k", "junk", "linger", "close_after")}
             yield dict(c, behaviour="well")
             if case.get("backlog") and case["behaviour"] != "never_reads":
                 yield dict(c, behaviour="never_reads")
